@@ -44,6 +44,23 @@ VF void vf_genkey_step(u8_t *rk_prev16, int round, u8_t *rk_out16)
   h->key.genkey(round);
   memcpy(rk_out16, &h->key.key[round], 16);
 }
+// block functions on an object whose 11 round keys are given directly (composition obligation T4)
+VF void vf_aes_rk_enc(const u8_t *rk176, u8_t *block)
+{
+  u8_t zero[16] = {0};
+  encryaes e(zero);
+  aeshandle *h = &e;
+  memcpy(&h->key.key[0], rk176, 176);
+  e.runaes_128bit(block);
+}
+VF void vf_aes_rk_dec(const u8_t *rk176, u8_t *block)
+{
+  u8_t zero[16] = {0};
+  decryaes d(zero);
+  aeshandle *h = &d;
+  memcpy(&h->key.key[0], rk176, 176);
+  d.runaes_128bit(block);
+}
 // --- C10: modes
 VF Aesmode *vf_mode_new(u8_t *key, const u8_t *iv, int isenc, u8_t type)
 {
